@@ -236,6 +236,9 @@ func GenPeerPlan(g G, kind string, adversarial bool) *PeerPlan {
 	if g.Chance(1, 2, kind+"readchunks") {
 		p.ReadChunks = g.Ints(4, 0, 50, kind+"rchunks")
 	}
+	if g.Chance(1, 3, kind+"yields") {
+		p.Yields = g.Ints(6, 0, 3, kind+"yieldcounts")
+	}
 	if g.Chance(1, 2, kind+"delays") {
 		p.Delays = g.Ints(5, 0, 40_000_000, kind+"delayunits") // up to 320 ms fake
 	}
